@@ -79,11 +79,28 @@ pub fn gen_tags_with(rng: &mut Rng, present: u32, handler_mdir: bool, place: u8)
                 items.push((*b"\xa9day", 0, y.to_be_bytes().to_vec()));
                 want.year = Some(y);
             }
-            _ => {
+            6 => {
                 // text that is no decimal number encodes no year: the accessor reports absence
                 // (empty payloads are part of the quantified space)
                 let t: &[u8] = *rng.pick(&[&b""[..], b"", b"abc", b"20x8", b"2008-05-01", b" ", b"-1", b"99999999999"]);
                 items.push((*b"\xa9day", 1, t.to_vec()));
+                want.year = None;
+            }
+            _ => {
+                // a binary payload that is not the 4-byte form encodes no year either ("all
+                // payload lengths"): shorter, longer (the year in the first / last four bytes,
+                // zero padded, the decimal digits tagged binary), empty
+                let b: Vec<u8> = match rng.below(7) {
+                    0 => Vec::new(),
+                    1 => y.to_be_bytes()[..1 + rng.usize_below(3)].to_vec(),
+                    2 => { let mut v = y.to_be_bytes().to_vec(); v.push(0); v }
+                    3 => { let mut v = vec![0u8; 4]; v.extend_from_slice(&y.to_be_bytes()); v }
+                    4 => { let mut v = y.to_be_bytes().to_vec(); v.extend_from_slice(&[0; 4]); v }
+                    5 => y.to_string().into_bytes().into_iter().chain(std::iter::once(b'1')).collect::<Vec<u8>>(),
+                    _ => { let n = 5 + rng.usize_below(12); rng.bytes(n) }
+                };
+                let b = if b.len() == 4 { vec![] } else { b };
+                items.push((*b"\xa9day", 0, b));
                 want.year = None;
             }
         }
@@ -109,7 +126,9 @@ pub fn gen_tags_with(rng: &mut Rng, present: u32, handler_mdir: bool, place: u8)
     }
     let handler = if handler_mdir { *b"mdir" } else { *rng.pick(&[*b"mdta", *b"ID32", *b"vide", *b"mdiR"]) };
     let meta_fullbox = rng.chance(2, 3);
-    let tags = Tags { items, handler, meta_fullbox, hdlr_first: if meta_fullbox { rng.chance(2, 3) } else { true }, place, udta_extra: rng.bool() };
+    // header form of the item boxes: any item (known or unrelated) may use the 64-bit size header
+    let large_items: Vec<bool> = items.iter().map(|_| rng.chance(1, 5)).collect();
+    let tags = Tags { items, handler, meta_fullbox, hdlr_first: if meta_fullbox { rng.chance(2, 3) } else { true }, place, udta_extra: rng.bool(), large_items };
     if !handler_mdir || place != 0 {
         want = WantTags::default();
     }
